@@ -192,6 +192,7 @@ type Exec struct {
 	clockLast  *Int
 	ufDecl     map[string]bool
 	ntpdef     int
+	inExportPoint bool
 	quiet      bool // suppress inconclusive notes (sampling)
 	tpReg      []tpRegEntry
 	tpActive   map[string]bool
